@@ -294,7 +294,17 @@ def r4_store_side(run, rule="R4"):
               "unknown entity/role answers None", "the None answer for an "
               "unknown entity vanished", fs.loc())
     subs = [unparse(n) for n in ast.walk(fs.node) if isinstance(n, ast.Subscript)]
-    run.check("self[entity_id][typ]" in subs and "t[service]" in subs, rule,
+    # <item>[service] for <item> in self[entity_id][typ]
+    chain = False
+    for lp in scfg.by_kind("foriter"):
+        if isinstance(lp.ast.target, ast.Name) and \
+                scfg.itext(lp.ast.iter, lp.id) == "self[entity_id][typ]":
+            v = lp.ast.target.id
+            chain = chain or any(
+                isinstance(x, ast.Subscript) and isinstance(x.value, ast.Name)
+                and x.value.id == v and unparse(x.slice) == "service"
+                for st in lp.ast.body for x in ast.walk(st))
+    run.check(chain, rule,
               fs.qual + "::lookup-keys", "self[entity_id][typ][*][service]",
               "lookup path changed: %s" % subs[:6], fs.loc())
 
